@@ -1,3 +1,4 @@
+import Sparrow.Proofs.KangArrayLemmas
 import Sparrow.Proofs.KangPipelineLemmas
 import Sparrow.Proofs.KangLemmas
 import Sparrow.Generated.Constants
@@ -151,3 +152,27 @@ theorem runKang_monotone (thr5 thr12 thr99 thr11 : ℝ) (room : KRoom ℝ) (par 
   Sparrow.runKang_monotone thr5 thr12 thr99 thr11 room par src recv r r' hr hr' he hff hs ha t
 
 end Sparrow.Props.C19.Run
+
+namespace Sparrow.Props.C19.Arrays
+open Sparrow Vec3
+
+/-- Orthogonal walls (normals along different axes), source patch with in-plane sizes `dd × dd`:
+    the array version is the method version. -/
+theorem kangFFArrOrth_eq (sc rc ns nr size : Vec3 ℝ) (dd thr5 thr12 : ℝ)
+    (hne : normalAxis ns thr5 ≠ normalAxis nr thr5)
+    (hsz : kangSizesOrth (normalAxis ns thr5) size = (dd, dd)) :
+    kangFFArrOrth sc rc ns nr size thr5 thr12 = kangFFOrth sc rc ns nr dd thr5 thr12 :=
+  Sparrow.kangFFArrOrth_eq sc rc ns nr size dd thr5 thr12 hne hsz
+
+/-- Translating both patches changes no entry of `patch2patch_ff_kang`. -/
+theorem kangFFArr_translation (sc rc ns nr size t : Vec3 ℝ) (thr5 thr12 : ℝ) :
+    kangFFArr (add sc t) (add rc t) ns nr size thr5 thr12 = kangFFArr sc rc ns nr size thr5 thr12 :=
+  Sparrow.kangFFArr_translation sc rc ns nr size t thr5 thr12
+
+/-- The parallel entry is `dd_l · dd_n · (Δm)² / (π d⁴)` with `d` the centre distance: it depends on
+    the centres only through their difference and is symmetric in the two patches of equal size. -/
+theorem kangFFArrPar_symm (sc rc nr size : Vec3 ℝ) (thr5 : ℝ) :
+    kangFFArrPar sc rc nr size thr5 = kangFFArrPar rc sc nr size thr5 :=
+  Sparrow.kangFFArrPar_symm sc rc nr size thr5
+
+end Sparrow.Props.C19.Arrays
